@@ -239,6 +239,9 @@ func (m ClientState) RestrictChain(cdc codec.BinaryCodec, store sdk.KVStore, new
 		}
 		current = *tmpConsensus
 	}
+	// `new` is now the first header of the new branch (the sibling of `current`), stored at height ti:
+	// it belongs to the new main chain as well and the re-pointing below starts with it
+	newHashes = append(newHashes, new.Hash())
 	for i := len(newHashes) - 1; i >= 0; i-- {
 		newTmp := store.Get(EthHeaderIndexKey(newHashes[i], ti.GetRevisionHeight()))
 		if newTmp == nil {
